@@ -273,8 +273,12 @@ def run(ctx):
             prov = any(model.strip_targs(x).endswith('multipart_parser::boundary_') for x in cons.subtree_refs(src)) and not any(x.startswith('p:') for x in cons.subtree_refs(src))
         ctx.check(prov, R5, 'consume:reemit-source-is-boundary-text', 'failed partial match is re-emitted from something other than the boundary string (bytes of an earlier chunk are gone)', cons.loc(spn[0]))
         ln = model.strip_targs(cons.ref_of(a[1]) or '')
-        resets = [w for w in q.field_writes(cons, 'multipart_parser::position_') if cons.const_value(cons.N(w)['ch'][-1]) == 0 and cons.point_of(w) and cons.point_of(w)[0] == cons.point_of(spn[0])[0]]
-        ctx.check(ln.endswith('multipart_parser::position_') and len(resets) == 1 and q.before(cons, spn[0], resets[0]), R5, 'consume:reemit-length-read-before-reset',
+        # the matched length is consumed (by the sputn) before position_ is given its next value on that path: every write of
+        # position_ in the block of the re-emission comes after it, and there is one (0, 1, or `c==boundary_[0] ? 1 : 0`)
+        pws = [w for w in q.field_writes(cons, 'multipart_parser::position_') if cons.point_of(w)]
+        same = [w for w in pws if cons.point_of(w)[0] == cons.point_of(spn[0])[0]]
+        after = [w for w in pws if w not in same and q.before(cons, spn[0], w)]
+        ctx.check(ln.endswith('multipart_parser::position_') and (len(same) + len(after)) >= 1 and all(cons.point_of(w)[1] > cons.point_of(spn[0])[1] for w in same), R5, 'consume:reemit-length-read-before-reset',
                   're-emitted length is not the matched length (position_ read after it was reset)', cons.loc(spn[0]))
         g_pos = cons.gate_edges(lambda atom, pol: cons.N(atom)['k'] == 'BinaryOperator' and cons.N(atom).get('op') == '>' and model.strip_targs(cons.ref_of(cons.N(atom)['ch'][0]) or '').endswith('multipart_parser::position_') and
                                 cons.const_value(cons.N(atom)['ch'][1]) == 0 and pol is True)
